@@ -247,6 +247,14 @@ def reset_fresh(ctx, rule='C12-R3'):
             ctx.check(e.value == fresh_call, rule, rq, e.node, e.loc(),
                       f'reset_prms() rebinds the global to {T.show(e.value, maxlen=100)} instead of a '
                       'fresh read of the packaged defaults', instance='reset all: global := get_default_prms()')
+            # "all" means "no names given" (which is None), not "an empty selection": reset_prms([]) restores nothing
+            wp = ('p', rf.params[0]) if rf.params else None
+            is_none = ('cmp', 'is', wp, T.NONE)
+            ctx.check(wp is not None and T.implies(e.guard, is_none) is True, rule, rq, e.node, e.loc(),
+                      f'everything is reset under {T.show(e.guard, maxlen=120)}: expected "no selection was given" '
+                      f'({rf.params[0] if rf.params else "which"} is None) - a truth test also takes an empty list of names, for which '
+                      'nothing is to be restored, and wipes every value the user had set',
+                      instance='reset all: only when no selection is given (identity test against None)')
         else:
             # AMPYCLOUD_PRMS[prm] = fresh[prm]
             idx = e.target[2] if tag(e.target) in ('sub', 'col') else None
@@ -386,3 +394,41 @@ def set_prms_refusals(ctx, rule='C12-R6'):
                   f'no way to the merge is open to a path given as a str ({T.show(e.guard, maxlen=160)}): the documented '
                   "set_prms('./ampycloud_default_prms.yml') is refused", instance='set_prms: a str path reaches the merge')
     ctx.floor(rule, 'path tests on the way to the merge in set_prms', n, 3)
+
+
+# ---------------------------------------------------------------------------------------------- C12-R8
+def same_loader(ctx, rule='C12-R8'):
+    """The file handed to set_prms() is read by the very loader that reads the packaged defaults (same constructor, same
+    arguments): two YAML readers agree on the mappings but not on every scalar - 1e3, 010, yes / no - so "identical results
+    for identical effective values" fails for files spelt that way as soon as the two routes parse differently."""
+    fx = effects(ctx)
+    p = ctx.project
+
+    def loaders(q):
+        out = set()
+        for e in fx.deep_events(q):
+            if e.kind != 'call':
+                continue
+            c = e.call
+            if tag(c) == 'mcall' and c[2] in ('load', 'safe_load', 'load_all'):
+                r = T.peel(c[1])
+                if tag(r) == 'new':
+                    out.add(('object of', r[1]))
+                elif tag(r) == 'call' and tag(r[1]) == 'g':
+                    out.add((r[1][1], tuple(T.show(a) for a in r[2]), tuple((k, T.show(v)) for k, v in r[3])))
+                elif tag(r) == 'g' and not r[1].startswith(p.pkg + '.'):
+                    out.add((r[1] + '.' + c[2], (), tuple((k, T.show(v)) for k, v in c[4] if k not in ('stream',))))
+                else:
+                    out.add(('receiver', T.show(r, maxlen=80)))
+            elif tag(c) == 'call' and tag(c[1]) == 'g' and c[1][1].split('.')[-1] in ('load', 'safe_load', 'load_all') \
+                    and not c[1][1].startswith(p.pkg + '.'):
+                out.add((c[1][1], (), tuple((k, T.show(v)) for k, v in c[3] if k not in ('stream',))))
+        return out
+    a, b = loaders('ampycloud.core.set_prms'), loaders('ampycloud.dynamic.get_default_prms')
+    f = p.func('ampycloud.core.set_prms', rule)
+    ctx.saw(f)
+    ctx.floor(rule, 'YAML load calls in set_prms / get_default_prms', min(len(a), len(b)), 1)
+    ctx.check(a == b, rule, f.qname, f.node.name, f.loc(),
+              f'set_prms reads the user file with {sorted(a)}, the packaged defaults are read with {sorted(b)}: the two '
+              'loaders do not resolve every scalar alike (1e3, 010, yes / no), so the same text gives other effective values '
+              'through the file route than through the defaults', instance='set_prms and get_default_prms use the same YAML loader')
